@@ -42,7 +42,7 @@ def check_alternative_writers(repo, res, cg, facts):
     if mv is None:
         raise AnalysisError('class MultiValue vanished')
     # the recorder: a method that walks a list field of its object which another method of the class appends to (the assignment
-    # sites in visiting order) and builds MultiValue objects inside that loop
+    # sites in visiting order) and builds MultiValue objects (itself or through a helper of its module)
     recorders = set()
     for k, fi in facts.funcs.items():
         if fi.cls is None:
@@ -50,10 +50,19 @@ def check_alternative_writers(repo, res, cg, facts):
         appended = {unparse(c.func.value) for m in fi.cls.methods.values() if m.key != k for c in ast.walk(m.node)
                     if isinstance(c, ast.Call) and isinstance(c.func, ast.Attribute) and c.func.attr == 'append'
                     and unparse(c.func.value).startswith('self.')}
-        for n in ast.walk(fi.node):
-            if isinstance(n, ast.For) and unparse(n.iter) in appended and any(
-                    isinstance(c, ast.Call) and isinstance(c.func, ast.Name) and c.func.id == 'MultiValue' for c in ast.walk(n)):
-                recorders.add(k)
+        def builds(node, depth=0):
+            # a MultiValue constructor call in the node, or in a helper of the same module it calls
+            for c in ast.walk(node):
+                if isinstance(c, ast.Call) and isinstance(c.func, ast.Name) and c.func.id == 'MultiValue':
+                    return True
+                if isinstance(c, ast.Call) and depth < 2:
+                    nm = c.func.id if isinstance(c.func, ast.Name) else (c.func.attr if isinstance(c.func, ast.Attribute) else None)
+                    h = facts.module_funcs.get(fi.rel, {}).get(nm) or (fi.cls.methods.get(nm) if nm else None)
+                    if h is not None and h.node is not node and builds(h.node, depth + 1):
+                        return True
+            return False
+        if any(isinstance(n, ast.For) and unparse(n.iter) in appended for n in ast.walk(fi.node)) and builds(fi.node):
+            recorders.add(k)
     if not recorders:
         raise AnalysisError('no method builds MultiValue objects while walking a recorded list of its object: the recorder of '
                             'instance-attribute assignments vanished')
